@@ -58,7 +58,7 @@ def _lexicon(lid, synsets, requires=None, ver='1'):
     return lx
 
 
-def _world(il1, il2, ie4, t1, t2, dep, missing, e_newer):
+def _world(il1, il2, ie4, t1, t2, dep, missing, e_newer, ext=False):
     lreq = []
     if dep:
         lreq.append({'id': 'E', 'version': '1'})
@@ -71,10 +71,16 @@ def _world(il1, il2, ie4, t1, t2, dep, missing, e_newer):
     lex_en = _lexicon('E', [_ss('n1', 'i1', [('hypernym', 'n2')]), _ss('n2', 'i7')], ver='2')
     rt.DB()
     rt.stub_normalizer()
-    order = [lex_e, lex_e2, lex_l] + ([lex_en] if e_newer else [])
+    # an extension of E that relates two synsets of E: the relation belongs to EX
+    lex_ex = _lexicon('EX', [{'external': True, 'id': 'e2',
+                              'relations': [{'target': 'e1', 'relType': 'also', 'meta': None}]},
+                             {'external': True, 'id': 'e1'}])
+    lex_ex['extends'] = {'id': 'E', 'version': '1'}
+    order = [lex_e, lex_e2, lex_l] + ([lex_en] if e_newer else []) + ([lex_ex] if ext else [])
     for lx in order:
         rt.quiet_add(docs.resource([lx], '1.1'))
-    return {'L:1': lex_l, 'E:1': lex_e, 'E2:1': lex_e2, **({'E:2': lex_en} if e_newer else {})}
+    return {'L:1': lex_l, 'E:1': lex_e, 'E2:1': lex_e2, **({'E:2': lex_en} if e_newer else {}),
+            **({'EX:1': lex_ex} if ext else {})}
 
 
 def _real(ili):
@@ -90,35 +96,45 @@ def _expected(world, expanded, x):
     if _real(me['ili']):
         for spec in expanded:
             ex = world[spec]
+            if ex.get('extends'):
+                continue        # what an extension adds is collected with the synsets of its base
             ilis = {s['id']: s['ili'] for s in ex['synsets']}
             for s in ex['synsets']:
                 if s['ili'] != me['ili'] or (spec == 'L:1' and s['id'] == x):
                     continue
-                for r in s['relations']:
+                rels = [(r, spec) for r in s['relations']]
+                for xspec in expanded:
+                    xl = world[xspec]
+                    if xl.get('extends') and xl['extends']['id'] + ':' + xl['extends']['version'] == spec:
+                        for es in xl['synsets']:
+                            if es.get('external') and es['id'] == s['id']:
+                                rels.extend((r, xspec) for r in es.get('relations', []))
+                for r, owner in rels:
                     tili = ilis.get(r['target'], '')
                     if not _real(tili):
                         continue
                     local = [ls['id'] for ls in lsyn if ls['ili'] == tili]
                     if local:
                         for lid in local:
-                            borrowed.append((r['relType'], lid, s['id'], r['target'], spec, tili))
+                            borrowed.append((r['relType'], lid, s['id'], r['target'], owner, tili))
                     else:
-                        borrowed.append((r['relType'], '*INFERRED*', s['id'], r['target'], spec, tili))
+                        borrowed.append((r['relType'], '*INFERRED*', s['id'], r['target'], owner, tili))
     return own, borrowed
 
 
 def h_expand(k1: int, k2: int, k4: int, kt1: int, kt2: int, kmode: int, dep: bool,
-             missing: bool, newer: bool) -> bool:
+             missing: bool, newer: bool, ext: bool) -> bool:
     """
     pre: 0 <= k1 < 3 and 0 <= k2 < 3 and 0 <= k4 < 4 and 0 <= kt1 < 3 and 0 <= kt2 < 3
     pre: kmode == rt.part(18)[0] // 3 and k1 == rt.part(18)[0] % 3
     pre: kmode == 0 or (dep and not missing and not newer)
     pre: rt.THOROUGH or kmode != 0 or (k4 < 2 and kt2 == 0 and k2 < 2)
+    pre: not ext or (kmode in (2, 4, 5) and (rt.THOROUGH or (kt1 == 0 and k4 == 0)))
     post: _
     """
     il1, il2, ie4 = _pick(L_ILIS, k1), _pick(L_ILIS, k2), _pick(E4_ILIS, k4)
     t1, t2 = _pick(['e2', 'e3', 'e4'], kt1), _pick(['e3', 'e4', 'e1'], kt2)
-    world = _world(il1, il2, ie4, t1, t2, dep, missing, newer)
+    world = _world(il1, il2, ie4, t1, t2, dep, missing, newer, ext)
     mode = MODES[rt.part(18)[0] // 3]
     with warnings.catch_warnings(record=True) as caught:
         warnings.simplefilter('always')
@@ -171,6 +187,8 @@ OBLIGATIONS = [
        symbolic='ILI of two synsets of L (i1, i2, none), ILI of one synset of E (i1 again, none, '
                 'proposed, i9), the targets of two hypernym relations in E, whether L declares the '
                 'dependency on E, whether a declared dependency is missing, whether a newer E:2 is '
-                'installed; expand mode ' + str(MODES) + ' (one partition each)',
+                'installed, whether an extension EX of E that relates two synsets of E is '
+                'installed (its relation is borrowed, with EX as its lexicon, exactly when EX is '
+                'among the expand lexicons); expand mode ' + str(MODES) + ' (one partition each)',
        bounds='L with 3 synsets (one own relation, one proposed ILI), E with 4 synsets, E2 with 2'),
 ]
